@@ -663,6 +663,8 @@ def install(vm):
             raise Inconclusive("verif_pred called outside a slice obligation")
         return f(vm, st, *argv)
     add(lambda n: n == '@verif_pred', h_pred)
+    # CPU feature detection (cpuid): no optional feature is reported, so memchr / aho-corasick keep to their baseline code
+    add(lambda n: 'std_detect6detect5cache21detect_and_initialize' in n, lambda vm, st, name, argv, ins: 0, True)
     add(lambda n: n == '@dlsym', lambda vm, st, name, argv, ins: 0)
     add(lambda n: n in ('@fcntl', '@fcntl64', '@ioctl', '@poll', '@signal', '@sigaction', '@pthread_self'), lambda vm, st, name, argv, ins: 0)
     add(lambda n: n == '@__errno_location', h_errno_location)
